@@ -21,7 +21,7 @@ var c05TM map[string]reflect.Type
 var c05NM map[string]string
 
 func init() {
-	all := []interface{}{&zoo.F3{}, &zoo.F4{}, &zoo.F5{}, &zoo.F9{}, &zoo.NonASCII{}, &zoo.CaseTwins{}, &zoo.Inner{}, []int32{1}, []string{"a"}, zoo.NMap{"k": &zoo.CN1{}}, zoo.PlainMap{"k": 1}}
+	all := []interface{}{&zoo.F3{}, &zoo.F4{}, &zoo.F5{}, &zoo.F9{}, &zoo.NonASCII{}, &zoo.CaseTwins{}, &zoo.Empty{}, &zoo.NonASCIIFirst{}, &zoo.Inner{}, []int32{1}, []string{"a"}, zoo.NMap{"k": &zoo.CN1{}}, zoo.PlainMap{"k": 1}}
 	for _, kt := range zoo.KTypes {
 		all = append(all, reflect.New(kt).Interface())
 	}
@@ -89,7 +89,9 @@ func c05Render(v reflect.Value, plan c05Plan) (*av.V, interface{}) {
 	for w, fi := range plan.order {
 		addExtras(w)
 		name := full.Fields[fi]
-		if w < len(plan.upper) && plan.upper[w] {
+		if w < len(plan.upper) && plan.upper[w] && name[0] < 0x80 {
+			// (the statement's "first letter case-insensitively" is about ASCII letters: a name that begins
+			// with another letter is sent as it is)
 			name = strings.ToUpper(name[:1]) + name[1:]
 		}
 		obj.Fields = append(obj.Fields, name)
@@ -178,6 +180,8 @@ func c05Values() []reflect.Value {
 		&zoo.F3{A: 7, B: "bee", C: 2.5},
 		&zoo.F4{A: 1 << 40, B: []int32{1, 2, 3}, C: &zoo.Inner{A: 3, S: "c"}, D: true},
 		&zoo.F5{A: -1, B: "b", C: []string{"x", "", "y"}, D: zoo.Inner{A: 9, S: "d"}, E: []byte{1, 2}},
+		&zoo.Empty{}, // no Go field at all: every wire field is one without counterpart
+		&zoo.NonASCIIFirst{Ärger: 3, Étage: "é", Ωmega: []*zoo.Inner{in}, Élan: in, Z: 9},
 		&zoo.CaseTwins{URL: "upper", Url: "lower", HitsID: 7, HitsId: 1 << 40, Ab: true, AB: []int32{1, 2}},
 		&zoo.NonASCII{Größe: 5, Naïve: "ï", Zażółć: []string{"ż", "ó"}, Name日本: &zoo.Inner{A: 1, S: "日本"}},
 		&zoo.F9{A: 300, B: "nine", C: map[string]int32{"k": 1}, D: time.UnixMilli(1500000000123), E: 65535, F: []*zoo.Inner{in, nil, in}, G: 0.5, H: -9, I: []interface{}{int32(1), "s"}},
